@@ -427,7 +427,116 @@ def c11(chk):
     chk.cov["rule"] = EXPLORE_RULE
 
 
-REGISTRY = {"C07": c07, "C08": c08, "C09": c09, "C10": c10, "C11": c11, "C04": c04, "C05": c05, "C01": c01, "C02": c02, "C03": c03, "C06": c06}
+POLL_RULE = ("polling scanner with the mock clock (hook): product exploration over REAL scanner states keyed by the implementation's Debug string with "
+             "arrival times replaced by elapsed time clamped at the timeout, x abstracted alphabet (8 contributing controllers x values {0,1,127}, noise, polls, reset, "
+             "time steps 1 / timeout-1 / timeout) for timeouts 0 and 3, each transition followed by behavioural probes that expose every stored byte; seeded random histories "
+             "(timeouts 0, 1, 3, 1000, u64::MAX; 2 or 16 channels; Raw/Structured/foreign messages; resets, copies, injected encoder output); every line is compared with the "
+             "model, and the C14 trace monitor runs on the implementation's results. non-trivial = operations that reported a message")
+
+
+def polling_runs(chk, exe, random=True):
+    lines_run(chk, exe, ["pp-explore", 0, 0], "pp-explore-t0", stateful=True)
+    lines_run(chk, exe, ["pp-explore", 3, 0], "pp-explore-t3", stateful=True)
+    if chk.tier == "thorough":
+        lines_run(chk, exe, ["pp-explore", 3, 15], "pp-explore-t3-ch15", stateful=True)
+        lines_run(chk, exe, ["pp-explore", 2, 7], "pp-explore-t2-ch7", stateful=True)
+    if random:
+        lines_run(chk, exe, ["pp-random"], "pp-random", stateful=True)
+        sample_from(chk, "pp-random", 3)
+
+
+def c12(chk):
+    chk.extract()
+    chk.proofs(["Midi.Props.C12"])
+    exe = chk.cargo_build("std")
+    if exe is None:
+        return
+    run_corpus(chk, exe)
+    lines_run(chk, exe, ["pp-sentences"], "pp-sentences", stateful=True)
+    sample_from(chk, "pp-sentences", 3)
+    lines_run(chk, exe, ["pp-roundtrip"], "pp-roundtrip", stateful=True)
+    polling_runs(chk, exe, random=False)
+    chk.cov["rule"] = ("sentences of the documented grammar run on the real scanner: ALL sequences of unit kinds up to 3 units (thorough: 5) satisfying the side conditions, x "
+                       "timeouts {0, 3, 50} x 4 repetitions with random values, one or two blocks, fresh or after random prior traffic, and three gap styles (none / one / "
+                       "random mix of early polls inside units, arbitrary polls elsewhere, time steps, non-contributing and other-channel traffic); seeded long random sentences; "
+                       "the reports are compared with flush ++ intended (Lean spec evaluated by the driver); encode->feed->poll round trips in both byte orders; " + POLL_RULE)
+
+
+def c13(chk):
+    chk.extract()
+    chk.proofs(["Midi.Props.C13"])
+    exe = chk.cargo_build("std")
+    if exe is None:
+        return
+    run_corpus(chk, exe)
+    polling_runs(chk, exe)
+    lines_run(chk, exe, ["pp-directed"], "pp-directed", stateful=True)
+    sample_from(chk, "pp-directed", 3)
+    chk.cov["rule"] = POLL_RULE + ("; directed scenarios from the property text with verdicts on the real code: early polls return nothing and have no effect / the first late "
+                                   "poll reports once / an unpaired LSB is dropped by the first late poll / feed results do not depend on the passage of time (timeouts 1, 2, 3, 1000, 2^40, u64::MAX)")
+    chk.assumptions += ["the model's clock is the mock clock of the hook; that std::time::Instant is monotone and elapsed() saturates is assumed, not checked"]
+
+
+def c14(chk):
+    chk.extract()
+    chk.proofs(["Midi.Props.C14"])
+    exe = chk.cargo_build("std")
+    if exe is None:
+        return
+    run_corpus(chk, exe)
+    polling_runs(chk, exe)
+    chk.cov["rule"] = POLL_RULE
+
+
+def c15(chk):
+    chk.extract()
+    chk.proofs(["Midi.Props.C15"])
+    exe = chk.cargo_build("std")
+    if exe is None:
+        return
+    run_corpus(chk, exe)
+    for k in ("cc", "pn", "pp"):
+        lines_run(chk, exe, [k + "-isolation"], k + "-isolation", stateful=True)
+    sample_from(chk, "pp-isolation", 2)
+    chk.cov["rule"] = ("for each of the three scanners: one 16-channel real scanner and 16 real scanners of their own side by side; seeded random two-channel interleavings "
+                       "for EVERY ordered pair of the 16 channels and 16-channel interleavings (feeds over the full alphabet incl. system messages, polls, resets, time steps); "
+                       "oracle on the real code: identical results, report channel = input channel, system messages report nothing; every line also compared with the model")
+
+
+def c16(chk):
+    chk.extract()
+    chk.proofs(["Midi.Props.C16"])
+    exe = chk.cargo_build("std")
+    if exe is None:
+        return
+    run_corpus(chk, exe)
+    lines_run(chk, exe, ["cc-transparent"], "cc-transparent", stateful=True)
+    lines_run(chk, exe, ["pn-transparent"], "pn-transparent", stateful=True)
+    polling_runs(chk, exe, random=False)
+    lines_run(chk, exe, ["cnpred-lines"], "cnpred")
+    sample_from(chk, "cnpred", 2); sample_from(chk, "pn-transparent", 2)
+    chk.cov["rule"] = ("every reachable state of the two pure scanners (fixpoint over the abstracted contributing alphabet) x every non-contributing message (all non-contributing "
+                       "controller numbers x 3 values, all 112 non-CC status bytes x 4 data-byte pairs): nothing reported and real PartialEq equality with a copy made before; "
+                       "polling scanner: the same probes after every transition of its product exploration; all 128 controller numbers for the predicates; all constants")
+
+
+def c17(chk):
+    chk.extract()
+    chk.proofs(["Midi.Props.C17"])
+    exe = chk.cargo_build("std")
+    if exe is None:
+        return
+    run_corpus(chk, exe)
+    scanner_runs(chk, exe, "cc", two_channel_thorough=False)
+    scanner_runs(chk, exe, "pn", two_channel_thorough=False)
+    polling_runs(chk, exe)
+    chk.cov["rule"] = ("reset applied in EVERY explored state of each scanner followed by real `== new(timeout)` / `== default()` (request mustbenew) and by the rest of the "
+                       "exploration from the reset state; seeded random histories with resets, and with copies made in mid-history that are then driven independently "
+                       "(original and copy each compared with the model); timeouts 0 and 3 (thorough: more)")
+    chk.assumptions += ["that a Rust `Copy` of a scanner is independent of the original is checked on the real code only (the model is a value)"]
+
+
+REGISTRY = {"C12": c12, "C13": c13, "C14": c14, "C15": c15, "C16": c16, "C17": c17, "C07": c07, "C08": c08, "C09": c09, "C10": c10, "C11": c11, "C04": c04, "C05": c05, "C01": c01, "C02": c02, "C03": c03, "C06": c06}
 
 
 def replay(pid, path):
